@@ -57,7 +57,8 @@ func (s *Service) proxyToSingleEndpoint(ctx context.Context, w http.ResponseWrit
 	cb := s.GetCircuitBreaker(endpoint.Name)
 	if cb != nil && cb.IsOpen() {
 		rlog.Warn("Circuit breaker is open for endpoint", "endpoint", endpoint.Name)
-		s.RecordFailure(ctx, endpoint, time.Since(stats.StartTime), fmt.Errorf("circuit breaker open"))
+		// nothing is sent to a skipped endpoint, so no request is booked against it either: its
+		// failure count must not keep growing while it receives no traffic
 		return &core.CircuitOpenError{Endpoint: endpoint.Name}
 	}
 
